@@ -183,6 +183,34 @@ func graphRoundTrip(c *Check, cfg *configuration.Configuration, root interface{}
 			c.Violation(fmt.Sprintf("%s round trip of %s changes the shape: %s became %s", format, desc, want, got), wit)
 			continue
 		}
+		// one kept unmarshaler: a document cut short (markers and references left pending), then the
+		// whole document - the graph must come back as from a fresh unmarshaler
+		if len(doc) > 12 {
+			var u ce.Unmarshaler
+			if format == "cbe" {
+				u = ce.NewCBEUnmarshaler(cfg)
+			} else {
+				u = ce.NewCTEUnmarshaler(cfg)
+			}
+			var back2 interface{}
+			p, hung = runWithWatchdog(watchdogShort, func() {
+				for _, cut := range []int{len(doc) / 2, len(doc) - 2} {
+					func() {
+						defer func() { recover() }()
+						u.UnmarshalFromDocument(doc[:cut], tmpl)
+					}()
+				}
+				back2, err = u.UnmarshalFromDocument(doc, tmpl)
+			})
+			if p != nil || hung || err != nil {
+				c.Violation(fmt.Sprintf("an unmarshaler that was first given truncated copies of the %s document of %s then fails on the whole document: %v %v hang=%v", format, desc, err, p, hung), wit)
+				continue
+			}
+			if got2 := shapeOf(back2); got2 != want {
+				c.Violation(fmt.Sprintf("an unmarshaler that was first given truncated copies of the %s document of %s returns a different shape for the whole document: %s instead of %s", format, desc, got2, want), wit)
+				continue
+			}
+		}
 		c.AddTraces(1)
 	}
 }
@@ -326,7 +354,9 @@ func checkC20(c *Check) {
 			}
 			return 0
 		}
-		same := func(a, b interface{}) bool { return id(a) != 0 && id(a) == id(b) && reflect.TypeOf(a) == reflect.TypeOf(b) }
+		same := func(a, b interface{}) bool {
+			return id(a) != 0 && id(a) == id(b) && reflect.TypeOf(a) == reflect.TypeOf(b)
+		}
 		return fmt.Sprintf("%s same01=%v same23=%v", absValue(v), same(l[0], l[1]), same(l[2], l[3]))
 	}
 	_ = unsafe.Pointer(nil)
